@@ -132,6 +132,15 @@ CHECKS = {
          "Trajectories within +-80 deg, surface <= 70 kt, a mode held > 10 s, landing within ~30 NM of the receiver, timestamps multiples "
          "of 0.5 s; ground truth comes from the harness's integer CPR encoder, which TLC re-checks against the spec encoder on every squitter.",
          "DESIGN.md section 5 C17"),
+ "C19": ("TLA+ spec of the pulse-position modulator and of the buffer processor (noise floor over 200-sample windows, 10 dB gate, preamble "
+         "template, pair slicing, DF/length/CRC admission) over integer samples; TLC checks Demod(Modulate(frames)) = frames over frame "
+         "lists x offsets x gaps x amplitudes x noise settings; seeded random buffers through the real _process_buffer() are judged by "
+         "TLC (sent frames recovered, no bad-parity DF17, equality with the spec processor on the same samples)",
+         "Spec: 1.8k (quick) / 30k+ (thorough) modulated buffers. Code: 500 (thorough 12 000) random buffers of 0-3 frames incl. bad-parity "
+         "decoys, amplitudes 0.3-1.4, noise peaks from 0 to -10 dB of the weakest pulse.",
+         "'10 dB above the noise floor' read as: every noise sample <= amp/3.162; uniform integer noise (x1000), not Gaussian/Rayleigh; "
+         "buffers contain a fully quiet 100-us window; no SDR hardware (object.__new__(RtlReader)).",
+         "DESIGN.md section 5 C19"),
 }
 
 PENDING = {}
